@@ -293,12 +293,12 @@ func worker(ps *PropSpec, from, to int64, outPath string, keepHashes bool, maxVi
 		out.SchedAcc += w.Stats.SchedAccepted
 		out.SchedRej += w.Stats.SchedRejected
 		out.Parser += w.Stats.ParserChecks
-		if len(states) < 400000 {
+		if len(states) < 150000 {
 			for h := range w.Stats.StateHashes {
 				states[h] = struct{}{}
 			}
 		}
-		if len(sigs) < 400000 {
+		if len(sigs) < 150000 {
 			for h := range w.Stats.CallSigs {
 				sigs[h] = struct{}{}
 			}
@@ -524,10 +524,10 @@ func parent(ps *PropSpec, tier string, seed int64, runs, workers int, verifDir s
 	}
 	var jobs []job
 	for i := 0; i < workers; i++ {
-		a := seed*1_000_000 + int64(i*per)
+		a := seed*10_000_000 + int64(i*per)
 		b := a + int64(per)
-		if int(b-seed*1_000_000) > runs {
-			b = seed*1_000_000 + int64(runs)
+		if int(b-seed*10_000_000) > runs {
+			b = seed*10_000_000 + int64(runs)
 		}
 		if a >= b {
 			break
@@ -632,8 +632,8 @@ func parent(ps *PropSpec, tier string, seed int64, runs, workers int, verifDir s
 		if f == nil {
 			continue
 		}
-		sig := f.Clause + "|" + firstWords(f.Detail, 3)
-		if reported[sig] {
+		sig := f.Clause
+		if reported[sig] || len(reported) >= 4 {
 			nviol++
 			continue
 		}
@@ -748,7 +748,7 @@ func writeEvidence(ps *PropSpec, tier string, seed int64, agg *WorkerOut, nstate
 		"simulated_events":             agg.Events,
 		"calls_judged":                 agg.Calls,
 		"runs_per_hour":                int(float64(agg.Runs) / wall * 3600),
-		"seeds":                        fmt.Sprintf("%d..%d", seed*1_000_000, seed*1_000_000+int64(agg.Runs)-1),
+		"seeds":                        fmt.Sprintf("%d..%d", seed*10_000_000, seed*10_000_000+int64(agg.Runs)-1),
 		"simulated_time":               fmt.Sprintf("logical: %d events, %d epoch notifications (no wall-clock time exists in the code under test)", agg.Events, agg.EpochEvs),
 		"faults_fired":                 agg.Faults,
 		"fault_kinds_injected":         ps.Faults,
